@@ -1,5 +1,28 @@
 /-
 C05 — load, edit, save, load preserves what the user did not touch.
+
+Proved:
+ 1. `save_writes_fields` — frame theorem over all passes of `save` (initial `get_data`, alignment pass,
+    segment loop by induction over ordered segments and member lists, loose sections, residency):
+    a section keeps everything but placement (`offset`; `addr`/`addrSet` if it had no address) and data
+    residency; a segment everything but `offset`, `filesz`, `memsz` (grows, ELF64), `align` (grows),
+    `offsetSet`.  Hypothesis: segments carry their position as index.
+ 2. `wsdStep_equidistant` (ELF64: the placing step establishes `vaddr + (offset − start) = addr`) and
+    `image_bytes_at_same_vaddr` — corollary-by-hypothesis of C04's `member_equidistant`: in the saved
+    bytes, `p_vaddr + (sh_offset − p_offset) = sh_addr`, that address is the old one, and the section's
+    data are at the file position the loader maps to it.
+ 3. `loaded_resave_fields` (+ `loaded_resave_names`) — relative to the abstract predicate `Loaded`
+    (what a loader reports for an image, stated against the specification decoder; C02 proves the
+    model's loader delivers it): save then load gives the same sections (name offset, type, flags,
+    size, link, info, alignment, entry size, address if one was set, data) and segments (type, flags,
+    addresses; alignment and ELF64 memory size ≥).  Uses C03's `save_decode_fields` and `LayoutOk`.
+ 4. `edit_frame` (+ `edit_frame_add_section`) — two objects that agree on header, segments and all
+    (resident) member sections are laid out identically as far as segments and members go; so adding a
+    section or appending to a non-member leaves every member's offset/address and every segment's
+    offset/sizes unchanged.  (Locality lemmas `wsdStep_agree … saveFold_agree` in Lemmas/Save.)
+Not proved: equality (rather than ≥) of a reloaded segment's memory size — it holds when the segment's
+memory size already covered its members (`RoundTrippable`), which is C04's `memsz_covers` territory;
+that the model's `load` satisfies `Loaded` on writer output (C02 + C04).
 -/
 import ElfioVerif.Lemmas.Save
 import ElfioVerif.Props.C03
